@@ -192,6 +192,8 @@ pub fn point_name(id: u32) -> &'static str {
         VALIDATE_NOTIFY => "validate.notify",
         ERROR_HEAD_CHECK => "error.headcheck",
         CACHE_CLEAR => "cache.clear",
+        REWIND_DONE => "rewind.done",
+        EXECUTED_DONE => "executed.done",
         HARNESS_DB => "harness.db",
         HARNESS_PRECOMPILE => "harness.precompile",
         HARNESS_ENTRY => "harness.entry",
